@@ -108,6 +108,12 @@ func genEngine(o *Out, r *rand.Rand, thorough bool) {
 		// repetition scan must stop at the set-up position; a third and a fifth occurrence complete while it looks back that far
 		hx("reset:4k1n1/8/8/8/8/8/8/4K1N1 w - - 7 30", "mv:g1f3", "mv:g8f6", "mv:f3g1", "mv:f6g8", "mv:g1f3", "mv:g8f6", "mv:f3g1", "mv:f6g8", "mv:e1e5", "mv:g1f3", "mv:g8f6", "mv:f3g1", "mv:f6g8", "mv:g1f3", "mv:g8f6", "mv:f3g1", "mv:f6g8", "tb", "mv:g8h6"),
 		hx("reset:4k1n1/8/8/8/8/8/8/4K1N1 b - - 30 55", "mv:g8f6", "mv:g1f3", "mv:f6g8", "mv:f3g1", "mv:g8f6", "mv:g1f3", "mv:f6g8", "mv:f3g1", "mv:zzzz", "tb", "tb", "mv:f6g8", "mv:f3g1"),
+		// a record whose castling field names a rook that is not on its corner (the decoder accepts any field with any placement; play
+		// never produces this): castling with the absent rook is not a move, with the present one it is
+		hx("reset:r3k2r/8/8/8/8/8/8/R3K3 w KQkq - 0 1", "mv:e1g1", "mv:e1c1", "mv:e8g8", "tb", "mv:e8c8"),
+		hx("reset:r3k2r/8/8/8/8/8/8/R3K2N w KQkq - 0 1", "mv:e1g1", "mv:h1g3", "mv:e8g8", "mv:e1c1"),
+		hx("reset:4k2r/8/8/8/8/8/8/4K2R b Kq - 0 1", "mv:e8c8", "mv:e8g8", "mv:h8h2", "mv:e1g1", "mv:e1c1"),
+		hx("reset:1r2k3/8/8/8/8/8/8/1R2K2B w KQkq - 3 9", "mv:e1c1", "mv:e1g1", "mv:b1b8", "mv:e8c8", "mv:e8g8", "mv:e8d8"),
 		hx("reset:4k1n1/8/8/8/8/8/8/4K1N1 w - - 250 200", "mv:g1f3", "mv:g8f6", "mv:f3g1", "mv:f6g8", "mv:g1f3", "mv:g8f6", "mv:f3g1", "mv:f6g8", "mv:g1h3"),
 	} {
 		line := "engine 0 ; " + sc
